@@ -54,7 +54,7 @@ Qed.
 
 (* ... hence the invariant does not hold in that reachable state of the unrepaired machine *)
 Lemma refuted_inv :
-  exists s0, cinit = OOk s0 /\ ~ Inv cpy cfetch cextract cok (crun false hist_f12 s0).
+  exists s0, cinit = OOk s0 /\ ~ Inv cpy cextract cok (crun false hist_f12 s0).
 Proof.
   eexists. split; [vm_compute; reflexivity|].
   intros (I1 & _). vm_compute in I1. specialize (I1 eq_refl _ eq_refl). discriminate I1.
